@@ -31,6 +31,8 @@ class Ref(object):
     def _notify(self):
         if not self.sinking:
             for s in self.subs:
+                if s[0] == "sub_once" and s[1] >= 1:
+                    continue  # it unsubscribed itself the first time
                 s[1] += 1
 
     def compute(self):
@@ -230,6 +232,9 @@ class C10(object):
             if op == "reset" and not kind.startswith("future"):
                 op = rng.choice(["value", "error", "is_computed"])
             ops.append([op, rng.randint(0, 99)])
+        for op in ops:
+            if op[0] == "sub_ok" and op[1] % 2 == 0:
+                op[0] = "sub_once"  # a one-shot subscriber: unsubscribes itself when it is called
         case = {"kind": kind, "ops": ops}
         case["falsy_errors"] = zlib.crc32(repr(sorted(case.items())).encode()) % 4 == 0
         return case
@@ -362,18 +367,21 @@ class C10(object):
                     ref.val = ref.err = None
                     f.reset_unsafe()
                     exp = got = ("V", None)
-                elif op in ("sub_ok", "sub_raise"):
+                elif op in ("sub_ok", "sub_raise", "sub_once"):
                     rec = [op, 0]
                     subs.append(rec)
                     ref.subs.append([op, 0])
                     snap = []
 
-                    def cb(fut, rec=rec, raising=(op == "sub_raise")):
+                    def cb(fut, rec=rec, raising=(op == "sub_raise"), once=(op == "sub_once"), me=[]):
                         rec[1] += 1
                         if not fut.is_computed():
                             out.append(("notify-before-visible", "%s: subscriber called while the future reports not computed" % kind))
+                        if once:
+                            fut.on_computed.unsubscribe(me[0])
                         if raising:
                             raise SimError("cb")
+                    cb.__defaults__[-1].append(cb)
                     f.on_computed.subscribe(cb)
                     exp = got = ("V", None)
             except BaseException as e:  # harness-unexpected
